@@ -10,6 +10,7 @@
 #include "gen_json.h"
 #include "tok_util.h"
 #include <algorithm>
+#include <cerrno>
 #include <clocale>
 #include <locale.h>
 
@@ -37,7 +38,7 @@ struct C14 : Property
 	{
 		return {"locale.global_comma", "locale.thread_comma", "locale.thread_C_over_global_comma", "outcome.success", "outcome.continue", "outcome.syntax_error", "outcome.depth_error",
 		        "outcome.size_error", "outcome.memory_error", "fault.duplocale_failed", "fault.newlocale_failed", "parse.non_integer_under_comma", "serialize.non_integer_under_comma",
-		        "format.custom_under_comma", "restore_checked_calls"};
+		        "format.custom_under_comma", "restore_checked_calls", "format.grouping_flag_then_reset", "stale_errno_on_entry"};
 	}
 	std::map<std::string, int64_t> cfg_defaults() const override { return {}; }
 
@@ -83,7 +84,8 @@ struct C14 : Property
 				}
 				}
 				op.data = text;
-				op.a = {(int64_t)r.below(4), fl[r.below(4)], r.chance(1, 4) ? (int64_t)r.range(1, 5) : 32, (int64_t)r.below(1000), (int64_t)r.below(2)};
+				static const int stale[] = {0, 0, 0, ENOMEM, EINTR, ERANGE, EINVAL};
+				op.a = {(int64_t)r.below(4), fl[r.below(4)], r.chance(1, 4) ? (int64_t)r.range(1, 5) : 32, (int64_t)r.below(1000), (int64_t)r.below(2), stale[r.below(7)]};
 				break;
 			}
 			case 4:
@@ -98,7 +100,7 @@ struct C14 : Property
 			}
 			default:
 				op.kind = "fmt";
-				op.a = {(int64_t)r.below(6), (int64_t)r.below(2)};
+				op.a = {(int64_t)r.below(7), (int64_t)r.below(2)};
 				break;
 			}
 			if (faulted && r.chance(1, 3))
@@ -155,6 +157,7 @@ struct C14 : Property
 		LIB(json_c_set_serialization_double_format(nullptr, JSON_C_OPTION_GLOBAL));
 		LIB(json_c_set_serialization_double_format(nullptr, JSON_C_OPTION_THREAD));
 		bool custom_fmt = false;
+		bool unclaimed_global = false, unclaimed_thread = false;
 		for (size_t oi = 0; oi < p.ops.size(); oi++)
 		{
 			const Op &op = p.ops[oi];
@@ -176,6 +179,9 @@ struct C14 : Property
 				Snapshot before = snap();
 				arm_faults(op, ctx);
 				int last_err = 0;
+				errno = (int)op.arg(5, 0); // whatever an earlier, unrelated call left in errno must not matter
+				if (errno && !is_ref)
+					ctx.probe("stale_errno_on_entry");
 				if (mode == 2)
 				{
 					std::string z = op.data.substr(0, op.data.find('\0'));
@@ -267,6 +273,8 @@ struct C14 : Property
 				arm_faults(op, ctx);
 				const char *s = LIB(json_object_to_json_string_ext(arr, flags));
 				o = s ? std::string("text:") + s : std::string("NULL");
+				if ((unclaimed_global || unclaimed_thread) && s)
+					o = "text:<format with grouping flag active: not compared>";
 				check_restored(ctx, before, "json_object_to_json_string_ext", oi);
 				bool fired = g_alloc.fired > 0;
 				tally_faults(ctx);
@@ -286,8 +294,10 @@ struct C14 : Property
 			}
 			else if (op.kind == "fmt")
 			{
-				static const char *fmts[6] = {nullptr, "%.3f", "%.0f", "%e", "%.17g", "%.2f"};
-				const char *f = fmts[op.arg(0) % 6];
+				// index 6: a format with the ' grouping flag - its OWN output is outside the claim (serializations are not compared
+				// while it is active), but once the format is reset the default must be fully locale independent again
+				static const char *fmts[7] = {nullptr, "%.3f", "%.0f", "%e", "%.17g", "%.2f", "%'.2f"};
+				const char *f = fmts[op.arg(0) % 7];
 				Snapshot before = snap();
 				arm_faults(op, ctx);
 				int rc = LIB(json_c_set_serialization_double_format(f, (op.arg(1) & 1) ? JSON_C_OPTION_THREAD : JSON_C_OPTION_GLOBAL));
@@ -296,6 +306,20 @@ struct C14 : Property
 				disarm_faults();
 				o = "rc=" + std::to_string(rc);
 				custom_fmt = f != nullptr && rc == 0;
+				if (rc == 0)
+				{
+					bool unclaimed = f && strchr(f, '\'');
+					bool thread_scope = op.arg(1) & 1;
+					if (thread_scope)
+						unclaimed_thread = unclaimed;
+					else
+					{
+						unclaimed_global = unclaimed;
+						unclaimed_thread = false; // setting the global format drops the thread format
+					}
+					if (unclaimed && !is_ref)
+						ctx.probe("format.grouping_flag_then_reset");
+				}
 				if (!is_ref)
 					ctx.cover(std::string("fmt|") + (rc == 0 ? "ok" : "failed") + "|" + faultkind);
 			}
